@@ -8,6 +8,7 @@ This module contains functions which are imported as methods in the `FST` class 
 from __future__ import annotations
 
 from itertools import takewhile
+from math import copysign
 from types import FunctionType, NoneType
 from typing import Any, Callable, Mapping, NamedTuple
 
@@ -457,7 +458,11 @@ def _put_one_constant(
                         )) +
                         f', got {value.__class__.__name__}')
 
-    if (value < 0 if isinstance(value, (int, float)) else value.imag < 0 if isinstance(value, complex) else False):
+    if (value < 0 if isinstance(value, int) else
+        copysign(1.0, value) < 0 if isinstance(value, float) else  # copysign() because of -0.0
+        copysign(1.0, value.imag) < 0 if isinstance(value, complex) else
+        False
+    ):
         raise NodeError('Constant.value cannot be negative')
 
     self._put_src(repr(value), *self.loc, True)
